@@ -13,15 +13,17 @@ demo=$(ls $dst/demo.* | head -1)
 run_demo() { if [[ $demo == *.sh ]]; then (cd $wt && bash SEED/$(basename $demo) >/dev/null 2>&1); else (cd $wt && PYTHONPATH=$wt /venv/bin/python SEED/$(basename $demo) >/dev/null 2>&1); fi; echo $?; }
 echo "== tests with change:"; (cd $wt && PYTHONPATH=$wt /venv/bin/python -m pytest -q -p no:cacheprovider 2>&1 | tail -1)
 echo "== demo with change (expect non-zero): $(run_demo)"
-(cd $wt && git stash -q -- func_adl_xAOD)
+(cd $wt && git apply -R $dst/patch.diff)
 echo "== demo without change (expect 0): $(run_demo)"
-(cd $wt && git stash pop -q)
+(cd $wt && git apply $dst/patch.diff)
 echo "== our checks against the change:"
-git -C /repo apply $dst/patch.diff || { echo "PATCH DOES NOT APPLY TO /repo"; exit 2; }
+# a scratch copy of /repo's working tree with the change applied (so that background runs against /repo are not disturbed)
+scratch=$(mktemp -d /tmp/vf_seed_XXXXXX); trap 'rm -rf "$scratch"' EXIT
+git -C /repo archive HEAD func_adl_xAOD | tar -x -C "$scratch"
+( cd /repo && git diff HEAD -- func_adl_xAOD ) | ( cd "$scratch" && patch -p1 -s ) 2>/dev/null
+( cd "$scratch" && git apply $dst/patch.diff ) || { echo "PATCH DOES NOT APPLY TO /repo"; exit 2; }
 for c in $id "$@"; do
-  out=$(cd /verif && ./check $c quick 2>&1); e=$?
+  out=$(cd /verif && VERIF_EVIDENCE_DIR=/verif/out/mutant-evidence VERIF_REPO="$scratch" ./check $c quick 2>&1); e=$?
   echo "$out" | grep -E "^violation|^C[0-9]+ quick" | cut -c1-260 | head -4
   echo "   -> ./check $c quick exit=$e"
 done
-git -C /repo checkout -- .
-git -C /repo status --short | head -3
